@@ -126,7 +126,10 @@ Definition mismatch (c : case) : bool :=
       let ip := e2en_ip proto tr ptbl peer hdrs pp in
       let oreq := match tbl_get otbl ip with Some (r, _) => r | None => false end in
       let m := e2e_model publish n cr 0 conf0 None oreq in
-      negb (txt_eqb ip who) || (if admitted then negb m else m && (publish || has_stream))
+      (* a PROXY header sent to a server that installed no PROXY listener is garbage to the protocol parser: the
+         connection may fail whatever the credentials (RTMP does, gortsplib skips the line) *)
+      let garbage := match proto_carrier proto, tr, pp with CTcp, [], Some _ => true | _, _, _ => false end in
+      negb (txt_eqb ip who) || (if admitted then negb m else m && (publish || has_stream) && negb garbage)
   end.
 
 (* ---- the property on the observed outcomes alone (no model function) ---- *)
